@@ -174,10 +174,12 @@ func (rule *RulePyflakes) parseNextError(stdout []byte, pos *Pos) ([]byte, error
 		msg = msg[:i]
 	}
 	b = b[idx+1:]
+	// Error messages must be in one line. The message comes from an external process
+	m := strings.NewReplacer("\r", " ", "\u2028", " ", "\u2029", " ").Replace(string(msg))
 
 	// This method needs to be thread-safe since concurrentProcess.run calls its callback in a different goroutine.
 	rule.mu.Lock()
-	rule.Errorf(pos, "pyflakes reported issue in this script: %s", msg)
+	rule.Errorf(pos, "pyflakes reported issue in this script: %s", m)
 	rule.mu.Unlock()
 
 	return b, nil
